@@ -108,8 +108,8 @@ theorem IdAux.perm_sortBy {α : Type} (lt : α → α → Bool) (l : List α) : 
     | cons b l ih =>
       simp only [insertBy]
       split
-      · exact List.Perm.refl _
       · exact ((List.Perm.cons b ih).trans (List.Perm.swap x b l))
+      · exact List.Perm.refl _
   induction l with
   | nil => simp [sortBy]
   | cons b l ih =>
